@@ -61,6 +61,11 @@ func TestC06_Retain(t *testing.T) {
 		}
 		db := gen.Load(t, cmds)
 		q, kind := c06Query(t, cmds)
+		if rapid.IntRange(0, 3).Draw(t, "respell") == 0 {
+			// the user's spelling may use any case form, incl. U+212A for k: both searches must cope
+			q, _ = respell(t, q)
+			kind += "+respelled"
+		}
 		f := false
 		opt := gen.Options(t, gen.OptSpec{N: len(cmds), BigLimit: true, FixFuzzy: &f, FixNLP: &f})
 		if opt.TopTermsCap != 0 && opt.TopTermsCap < 10 {
